@@ -529,7 +529,7 @@ func genFingerOrder() {
 	interesting := setOf("os.ReadFile", "os.WriteFile", "os.MkdirAll", "os.Create", "os.Chtimes", "os.Stat",
 		"os.Remove", "os.Open", "checker.checksum", "checker.checksumFilePath", "checker.timestampFilePath",
 		"Globs", "glob", "collectKeys", "getMaxTime", "anyFileNewerThan", "time.Now", "normalizeFilename",
-		"filepath.Base", "filepath.Join", "io.CopyBuffer", "xxh3.New", "h.Sum128", "sort.Strings",
+		"filepath.Base", "filepath.Rel", "filepath.ToSlash", "filepath.Join", "io.CopyBuffer", "xxh3.New", "h.Sum128", "sort.Strings",
 		"execext.ExpandFields", "execext.RunCommand", "config.statusChecker.IsUpToDate",
 		"config.sourcesChecker.IsUpToDate", "NewSourcesChecker", "NewStatusChecker", "t.Name",
 		"strings.TrimSpace", "append")
@@ -562,6 +562,35 @@ func genFingerOrder() {
 		l.pairList(f[1], rows)
 	}
 	l.pairList("swallowedErrReturns", swallowed)
+
+	// the NAME hashed with every source file: arguments of filepath.Rel, the assignment taken
+	// when it fails, and the reader handed to the first io.CopyBuffer
+	nameRel, nameFallback, nameHashed := "", "", ""
+	if fd := fp.funcDecl("ChecksumChecker.checksum"); fd != nil {
+		ast.Inspect(fd, func(n ast.Node) bool {
+			switch x := n.(type) {
+			case *ast.CallExpr:
+				switch src(x.Fun) {
+				case "filepath.Rel":
+					nameRel = srcList(x.Args)
+				case "io.CopyBuffer":
+					if nameHashed == "" && len(x.Args) >= 2 {
+						nameHashed = src(x.Args[1])
+					}
+				}
+			case *ast.IfStmt:
+				if nameRel != "" && nameFallback == "" && errGuardRe.MatchString(src(x.Cond)) && len(x.Body.List) == 1 {
+					if as, ok := x.Body.List[0].(*ast.AssignStmt); ok {
+						nameFallback = src(as)
+					}
+				}
+			}
+			return true
+		})
+	}
+	l.str("checksumNameRel", nameRel)
+	l.str("checksumNameFallback", nameFallback)
+	l.str("checksumNameHashed", nameHashed)
 
 	// file naming
 	re := ""
